@@ -229,8 +229,19 @@ impl C16 {
 
     /// every DST constructor of both crates, content length `len`
     fn constructors(&self, ctx: &mut Ctx, len: usize) {
+        // "cloning yields an equal tag": also through the type's own PartialEq
+        fn same<T: ?Sized + PartialEq>(ctx: &mut Ctx, a: &T, b: &T) {
+            ctx.count("clone:partial-eq-checked");
+            if catch(|| a == b) != Out::Val(true) {
+                ctx.violation("clone_dyn:not-equal-by-PartialEq", J::s(core::any::type_name::<T>()));
+            }
+        }
+        fn nocmp<T: ?Sized>(_ctx: &mut Ctx, _a: &T, _b: &T) {}
         macro_rules! ctor {
-            ($name:expr, $make:expr, $hl:expr, $content:expr) => {{
+            ($name:expr, $make:expr, $hl:expr, $content:expr) => {
+                ctor!($name, $make, $hl, $content, same)
+            };
+            ($name:expr, $make:expr, $hl:expr, $content:expr, $eq:ident) => {{
                 ctx.eval();
                 let desc = J::obj(vec![("constructor", J::s($name)), ("content_len", J::u(len as u64))]);
                 let (r, evs) = rec!(catch(|| $make));
@@ -247,6 +258,7 @@ impl C16 {
                                 Out::Val(c) => {
                                     let dc = le32(unsafe { bytes_of(&*c, 8) }, 4) as usize;
                                     judge(ctx, &format!("clone_dyn({})", $name), &*c, $hl, dc, &content, &evc, &desc);
+                                    $eq(ctx, &*b, &*c);
                                     let total = $hl + content.len();
                                     let a = &*c as *const _ as *const u8 as usize;
                                     let (_, evd) = rec!(drop(c));
@@ -275,7 +287,7 @@ impl C16 {
         mc.extend_from_slice(&s0);
         ctor!("ModuleTag::new", ModuleTag::new(ms, me, &s), 8, mc.clone());
         let raw = ctx.rng.bytes(len);
-        ctor!("NetworkTag::new", NetworkTag::new(&raw), 8, raw.clone());
+        ctor!("NetworkTag::new", NetworkTag::new(&raw), 8, raw.clone(), nocmp);
         let mut sc = vec![3u8, 7, 0, 0, 0, 0, 0, 0];
         sc.extend_from_slice(&raw);
         ctor!("SmbiosTag::new", SmbiosTag::new(3, 7, &raw), 8, sc.clone());
